@@ -7,7 +7,7 @@ TECH = "Kani 0.68 -> CBMC 6.11 bounded model checking (SAT, CaDiCaL) of the real
 
 CLAIMED = {
  "C01": dict(cat="model_checking", ref="DESIGN.md §3 C01",
-   text="Bounded inductive step: ONE execute_one call from an arbitrary invariant-satisfying pre-state (concrete command structure per grid point; every stack value, area count, label entry, input character symbolic) is decided by SAT to produce exactly the post-state, output bytes, reads, next location and exit behaviour of an independent step definition. 44 quick grid points (kinds x operands x stacks x area shapes x I/O stacks). Nothing is claimed for stacks deeper than 3, more than 3 operands, values outside the small domains, or the app/run.rs wiring.",
+   text="Bounded inductive step: ONE execute_one call from an arbitrary invariant-satisfying pre-state (concrete command structure per grid point; every stack value, area count, label entry, input character symbolic) is decided by SAT to produce exactly the post-state, output bytes, reads, next location and exit behaviour of an independent step definition. 55 quick grid points (kinds x operands x stacks x area shapes x I/O stacks). Nothing is claimed for stacks deeper than 3, more than 3 operands, values outside the small domains, or the app/run.rs wiring.",
    note="Trusted: Kani, CBMC, CaDiCaL, the step definition harness/spec.rs, and the value-level models that replace Num::add/mul and the bignum layer (decided separately under C05-C07). State = array-backed implementation of the public State trait with the real trait defaults."),
  "C02": dict(cat="model_checking", ref="DESIGN.md §3 C02",
    text="Bounded, partial: ONE opt_execute call (the optimiser's private re-implementation of the six commands) from the C01 pre-states: if it commits, state and captured output equal the language definition; if it gives up, state, command log and BOTH output streams are exactly as before (an unnecessary give-up is not an error). The level-1 renumbering pass and OptState's in-range push/pop are NOT decided (HashMap / heap-backed vectors are beyond the symbolic executor) - see evidence.outside_claim.",
